@@ -152,7 +152,8 @@ Section NewDeclared.
         destruct (Ipcomp r Ho R D) as [[H1 H2]|[]]. left. split; [exact H1|].
         destruct (nd_fields (home r)) as (_ & _ & -> & _). exact H2.
       + unfold vd. rewrite nd_vget_new. cbn. intros _ E. contradiction.
-    - intros q Hq. destruct (nd_fields q) as (_ & _ & -> & -> & -> & _). apply Imarks. exact Hq.
+    - intros q Hq. destruct (nd_fields q) as (_ & _ & -> & -> & -> & ->). destruct (Imarks q Hq) as [H1 H2]. split; [|exact H2].
+      destruct (Nat.eqb_spec q t) as [->|]; [|exact H1]. rewrite len_app_last. unfold sc. lia.
   Qed.
 
   Lemma nd_root_of w : (w < nvars st)%nat -> root_of st2 w = root_of st w.
